@@ -190,6 +190,9 @@ type c15Opts struct {
 	secondPass func(lines []string) (acts []string, out []string, parsed []pkglint.VerifLayoutLine, panicked string)
 	// whole run: which fixer pkglint announced for a raw line (1-based line number of the file), for the key
 	kindAt map[int]string
+	// only the 72-column clause of the settle clauses (the pass may legitimately have left the
+	// alignment to the next run: canonical separation and a silent second pass are not due yet)
+	marginOnly bool
 }
 
 // c15Structure is the line structure of a file as the real loader sees it: the number of
@@ -333,7 +336,7 @@ func (c *c15Checker) property(o c15Opts, before, after []string, pb, pa []pkglin
 				continue
 			}
 			sbv := l.Parts[0][2]
-			if !(c15AllTabs(sbv) || sbv == " ") {
+			if !(c15AllTabs(sbv) || sbv == " ") && !o.marginOnly {
 				fail("C15/noncanonical/"+o.what, fmt.Sprintf("%s: after one pass the value of %q is separated by %q (paragraph %q)", o.what, l.Raw[0], sbv, after))
 			}
 			bl, al := before[rawAt[i]], after[rawAt[i]]
@@ -357,7 +360,7 @@ func (c *c15Checker) property(o c15Opts, before, after []string, pb, pa []pkglin
 		}
 	}
 	// 5. a second pass changes nothing and reports nothing
-	if singleOnly && o.secondPass != nil {
+	if singleOnly && o.secondPass != nil && !o.marginOnly {
 		acts, out, _, pan := o.secondPass(after)
 		if pan != "" {
 			fail("C15/panic/second-pass/"+o.what, fmt.Sprintf("%s: second pass over %q: %s", o.what, after, pan))
@@ -1526,7 +1529,7 @@ func (c *c15Checker) alignAfterValueFix(lines []string) {
 	if pb.Panicked != "" || pa.Panicked != "" {
 		return
 	}
-	c.property(c15Opts{what: "align", settle: true, secondPass: c15SecondAlign("")}, fixed, r1.Lines, pb.Before, pa.Before, replay)
+	c.property(c15Opts{what: "align", settle: true, marginOnly: true}, fixed, r1.Lines, pb.Before, pa.Before, replay)
 	bad := false
 	for _, k := range c.lastFailKeys {
 		if !strings.HasPrefix(k, "C15/widen72/") {
@@ -1557,7 +1560,13 @@ func (c *c15Checker) alignAfterValueFix(lines []string) {
 	c.reqImpl = append(c.reqImpl, r1.Lines)
 	c.reqIn = append(c.reqIn, lines)
 	c.reqNonl = append(c.reqNonl, false)
-	c.reqActs = append(c.reqActs, len(r1.Actions))
+	nact := 0
+	for _, a := range r1.Actions {
+		if !strings.Contains(a, "post-patch") { // the value fix itself is not VaralignBlock's action
+			nact++
+		}
+	}
+	c.reqActs = append(c.reqActs, nact)
 	c.reqBad = append(c.reqBad, bad)
 }
 
